@@ -1276,17 +1276,20 @@ class Store:
         # find the process and topology updates
         for path, process in source_process_paths:
             process_path = target_path + path
-            process_updates.append((
-                process_path, process.value))
             topology_updates.append((
                 process_path, process.topology))
             if process.value.is_step():
+                # a step is reported as a step only, or it would be
+                # registered (and run) twice
                 step_updates.append((
                     process_path, process.value))
                 # Note that process.flow may be None, indicating no
                 # flow.
                 flow_updates.append((
                     process_path, process.flow))
+            else:
+                process_updates.append((
+                    process_path, process.value))
 
         self._delete_path(source_path)
 
